@@ -119,10 +119,22 @@ func (m *C10) measureLev(w *chain.World, ctx sdk.Context, addr string, id uint64
 	return j
 }
 
+// setJust records the measurement taken right before an entry's turn. A position named more than
+// once in a request (twice in a list, or in two lists) is measured at every mention; once a mention
+// has closed it, the later mentions find nothing, and "nothing there" must not replace the
+// measurement that stood right before the step that did close it.
+func (m *C10) setJust(key string, j *just) {
+	if prev := m.justs[key]; prev != nil && prev.existed && !j.existed {
+		m.st.Ev("position_named_again_after_its_close_in_the_same_request")
+		return
+	}
+	m.justs[key] = j
+}
+
 func (m *C10) simulateLev(w *chain.World, ctx sdk.Context, msg *lptypes.MsgClosePositions) {
 	ms := lpkeeper.NewMsgServerImpl(*w.App.LeveragelpKeeper)
 	for _, v := range msg.Liquidate {
-		m.justs[lkey(v.Address, v.Id)] = m.measureLev(w, ctx, v.Address, v.Id, "liquidate")
+		m.setJust(lkey(v.Address, v.Id), m.measureLev(w, ctx, v.Address, v.Id, "liquidate"))
 		m.named[lkey(v.Address, v.Id)] = true
 		func() {
 			defer func() { recover() }()
@@ -130,7 +142,7 @@ func (m *C10) simulateLev(w *chain.World, ctx sdk.Context, msg *lptypes.MsgClose
 		}()
 	}
 	for _, v := range msg.StopLoss {
-		m.justs[lkey(v.Address, v.Id)] = m.measureLev(w, ctx, v.Address, v.Id, "stop_loss")
+		m.setJust(lkey(v.Address, v.Id), m.measureLev(w, ctx, v.Address, v.Id, "stop_loss"))
 		m.named[lkey(v.Address, v.Id)] = true
 		func() {
 			defer func() { recover() }()
@@ -326,7 +338,7 @@ func (m *C10) measurePerp(w *chain.World, ctx sdk.Context, addr string, id uint6
 func (m *C10) simulatePerp(w *chain.World, ctx sdk.Context, msg *perptypes.MsgClosePositions) {
 	ms := perpkeeper.NewMsgServerImpl(*w.App.PerpetualKeeper)
 	step := func(v perptypes.PositionRequest, list string, single *perptypes.MsgClosePositions) {
-		m.justs[lkey(v.Address, v.Id)] = m.measurePerp(w, ctx, v.Address, v.Id, list)
+		m.setJust(lkey(v.Address, v.Id), m.measurePerp(w, ctx, v.Address, v.Id, list))
 		m.named[lkey(v.Address, v.Id)] = true
 		func() {
 			defer func() { recover() }()
